@@ -151,7 +151,7 @@ def run(out, tier, model_ok=True):
   pending = []
   scen_hist = {}
   for i in range(n):
-    fr = en.gen_frame(rng, cost_kind=('variable' if i % 3 == 2 else 'fixed'), n_pre=(rng.choice([4, 5, 6]) if i % 7 == 0 else None))
+    fr = en.gen_frame(rng, cost_kind=('variable' if i % 3 == 2 else ('fixed_cool' if i % 6 == 1 else 'fixed')), cooldown=(rng.choice([1, 2, 4]) if i % 6 == 1 else None), n_pre=(rng.choice([4, 5, 6]) if i % 7 == 0 else None))
     fr.update(use_cooldown=rng.random() < 0.6, level=rng.choice([0.9, 0.8, 0.95, 0.5, 0.3]), tails=rng.choice([1, 2]),
               thr=rng.choice([0.0, 0.0, 1.0, 2.5]), nsims=2000, random_state=rng.randint(0, 10 ** 6))
     scen_hist[fr['cost_kind']] = scen_hist.get(fr['cost_kind'], 0) + 1
